@@ -1,0 +1,20 @@
+//go:build verif
+// +build verif
+
+package overlaydb
+
+// Verification accessors (build tag verif only): read-only views of the skip-list arenas.
+
+// VerifLevel0 returns, for every node on the level-0 chain in chain order, its offset in nodeData followed by
+// the four header cells (kv offset, key length, value length, height), and the lengths of the two arenas.
+func (p *MemDB) VerifLevel0() (nodes [][5]int, kvLen int, nodeLen int) {
+	for node := p.nodeData[nNext]; node != 0; node = p.nodeData[node+nNext] {
+		nodes = append(nodes, [5]int{node, p.nodeData[node+nKV], p.nodeData[node+nKey], p.nodeData[node+nVal], p.nodeData[node+nHeight]})
+	}
+	return nodes, len(p.kvData), len(p.nodeData)
+}
+
+// VerifKV returns a copy of the key/value arena.
+func (p *MemDB) VerifKV() []byte {
+	return append([]byte{}, p.kvData...)
+}
